@@ -149,6 +149,8 @@ func (w *World) newSession(snHandler func(s *Session, p *snref.Pkt, raw []byte),
 			w.Tr.setFault(seq, "drop")
 		case memnet.Dup:
 			w.Tr.setFault(seq, "dup")
+		case memnet.Fail:
+			w.Tr.setFault(seq, "senderr")
 		}
 		return act
 	})
